@@ -13,7 +13,7 @@ ALGS = ["SSIcov", "SSIdat", "SSIcov_MS", "SSIdat_MS", "pLSCF", "pLSCF_MS"]
 REQUIRED_MONITORS = [f"sound+complete@{a}.run" for a in ALGS] + [f"one-NaN-pattern@{a}.run" for a in ALGS] + ["conj-injection@run", "HC_conj(function)", "sound+complete@SSIcov.run(calc_unc)"]
 CRIT = ["conj", "xi", "mpc", "mpd", "cov"]
 ALL_STATES = [f"fails {c} alone" for c in CRIT] + ["fails several", "passes all", "conj=False keeps orphan", "ordmin > 0"]
-REQUIRED_STATES = ["ordmin > 0", "fails xi alone", "fails mpc alone", "fails mpd alone", "fails cov alone", "fails conj alone", "passes all", "conj=False keeps orphan"]
+REQUIRED_STATES = ["same instance re-run with relaxed criteria", "ordmin > 0", "fails xi alone", "fails mpc alone", "fails mpd alone", "fails cov alone", "fails conj alone", "passes all", "conj=False keeps orphan"]
 RULE = ("noisy responses of systems with complex non-proportional shapes, high model orders (many spurious, negatively damped and real poles); a first "
         "run observes the indicator distributions of the unfiltered solution (captured at the return of SSI_poles / pLSCF_poles in the same "
         "execution), later runs put xi_max / mpc_lim / mpd_lim / cov_max at their 30..70 % quantiles; every cell of every run is judged for "
@@ -290,6 +290,14 @@ def run_adaptive(ctx, case, rng, calc_unc=False):
     if r2 is None:
         return
     alone, _ = r2
+    # history: the SAME algorithm instance re-run with relaxed criteria must give what a fresh instance gives (completeness on re-run)
+    hc3 = dict(hc2, xi_max=min(1.0, 3 * hc2["xi_max"]), mpc_lim=0.5 * hc2["mpc_lim"], mpd_lim=min(1.57, 2 * hc2["mpd_lim"]))
+    a2.run_params.hc = dict(hc3)
+    with capture(alg) as unf3:
+        s2.run_all()
+    ctx.state("same instance re-run with relaxed criteria")
+    if unf3:
+        judge_run(ctx, alg, unf3, a2.result, hc3, not alg.startswith("pLSCF"), suffix)
     need = [c for c in ("xi", "mpc", "mpd") + (("cov",) if calc_unc else ())]
     if all(alone.get(c, 0) > 0 for c in need):
         ctx.nontrivial((alg, calc_unc, tuple(round(v, 5) if isinstance(v, float) else v for v in hc2.values())))
